@@ -4,3 +4,4 @@ import Dasp.Props.C06
 import Dasp.Props.C12
 import Dasp.Props.C13
 import Dasp.Props.C09
+import Dasp.Props.C14
